@@ -625,14 +625,16 @@ def cooperate(w, duration, hold=90, asn=None, caps='default', watch=None, close_
     connection was accepted (the agent's new OPEN is out), or `close_lag` seconds after it was started."""
     from . import wire as _wire
 
+    def overdue(x):
+        # (the same expression as the wake-up time below: t_lose + close_lag, never now - t_lose - the two round differently)
+        return x[1].t_lose is not None and w.now() >= x[1].t_lose + close_lag - 1e-9
+
     def late_closes(force):
         done = False
-        while reactor.defer_io and reactor._io_pending and (
-                force or any(w.now() - (x[1].t_lose if x[1].t_lose is not None else w.now()) >= close_lag for x in reactor._io_pending)):
+        while reactor.defer_io and reactor._io_pending and (force or any(overdue(x) for x in reactor._io_pending)):
             idx = 0
             if not force:
-                idx = [i for i, x in enumerate(reactor._io_pending)
-                       if w.now() - (x[1].t_lose if x[1].t_lose is not None else w.now()) >= close_lag][0]
+                idx = [i for i, x in enumerate(reactor._io_pending) if overdue(x)][0]
             reactor.sim_complete_close(idx)
             w.settle()
             res['late_closes'] += 1
